@@ -55,7 +55,7 @@ def gen(seed):
         sub = [rng.choice(world['layers'])['name'] + '$']
     return {'property': ID, 'seed': seed, 'world': world, 'plan': plan, 'opt': opt,
             'sched': {'prng': seed},
-            'knobs': {'child_skew': skew, 'clock_base': 1.7e9 + rng.random() * 1e6},
+            'knobs': {**({'defaults_split': rng.randint(0, 99)} if rng.random() < 0.3 else {}), 'child_skew': skew, 'clock_base': 1.7e9 + rng.random() * 1e6},
             'j': rng.randint(2, 4), 'layer_subset': sub}
 
 
